@@ -257,7 +257,7 @@ pub fn crafted_corpus() -> Vec<Crafted> {
                 arch(&format!("leaf-cycle-{depth}"), a);
             }
         }
-        for n in [10usize, 100, 1000, 3000, 6000, 9500, 100_000] {
+        for n in [10usize, 20, 40, 63, 64, 65, 100, 1000, 3000, 6000, 9500, 100_000] {
             arch(&format!("leaf-chain-{n}"), chain_archive(c, n));
         }
         // ids that do not ascend / repeat, around leaf pointers (readers that derive a leaf's id span from its neighbours)
@@ -280,7 +280,15 @@ pub fn crafted_corpus() -> Vec<Crafted> {
                 arch(&format!("metadata-nested-{nm}-{depth}"), assemble_meta(c, &tile, &[], m.as_bytes(), |_, _| {}));
             }
         }
-        // root pointing into the root (pointer with leaf offset such that it lands on the root itself)
+        // well-formed metadata of the wrong kind, long and full of multi-byte characters at every alignment
+        // (error paths that quote or truncate what they found)
+        for pad in 0..4usize {
+            for (nm, ch) in [("2-byte", "\u{e9}"), ("3-byte", "\u{20ac}"), ("4-byte", "\u{1F5FA}")] {
+                let text = format!("{}{}", "a".repeat(pad), ch.repeat(150));
+                arch(&format!("metadata-string-{nm}-chars-pad{pad}"), assemble_meta(c, &tile, &[], serde_json::to_string(&text).unwrap_or_default().as_bytes(), |_, _| {}));
+                arch(&format!("metadata-array-{nm}-chars-pad{pad}"), assemble_meta(c, &tile, &[], serde_json::to_string(&vec![text.clone(), text]).unwrap_or_default().as_bytes(), |_, _| {}));
+            }
+        }
         arch("metadata-not-utf8", {
             let mut a = assemble(c, &tile, &[], |_, _| {});
             let h = SHeader::decode(&a).unwrap();
@@ -520,7 +528,7 @@ pub fn run(ctx: &Ctx) {
     ctx.rec.set_rule(
         "all inputs are executed in sandboxed worker processes (8 GiB address space, 16 MiB stack, per-case timeout) so that aborts, failed allocations and stack overflows are \
          observed as process death. (1) crafted corpus: one input per hazard class named in the property (entry counts 2^27..2^64-1, id sums / offset+length / run expansion that \
-         overflow, zero first offset, header offsets and lengths near 2^64, leaf pointers forming 1/2/3-cycles, chains of 10..10^5 leaves, truncated and over-long varints, \
+         overflow, zero first offset, header offsets and lengths near 2^64, leaf pointers forming 1/2/3-cycles, chains of 10..10^5 leaves (including lengths just inside and just beyond the depth the library accepts), truncated and over-long varints, \
          truncated codec streams, decompression bombs) x 4 codecs, as single directory and as archive; (2) every prefix and every single-byte substitution from {00,01,7f,80,ff,b^01,b^80} \
          of 12 small valid archives; (3) proptest structure-aware mutation: <= 4 varint fields of chosen directories and header fields replaced by boundary values (before re-compression, \
          pointers re-computed), splices, truncations, section swaps. API battery: Header / Directory / PMTiles readers, partial opens, get_tile(_by_id), to_writer, read_directories, \
